@@ -19,7 +19,7 @@ impl Check for C05 {
          siblings (path leaves the root page); distinct = distinct serialized case".into()
     }
     fn cases(tier: Tier) -> u32 {
-        tier.pick(640, 8000)
+        tier.pick(2400, 24000)
     }
     fn strategy(tier: Tier) -> BoxedStrategy<History> {
         history_strategy(HistParams {
